@@ -70,11 +70,14 @@ def _n(v):
     return "" if v is None or v < 0 else str(v)
 
 
-def _bytes_text(bs):
-    """render raw bytes for a data-file field: printable ones verbatim, the rest (and separators) in octal"""
+def _bytes_text(bs, raw=""):
+    """render raw bytes for a data-file field: printable ones verbatim, the rest (and separators) in octal;
+    `raw`: the separator character that is NOT in use on this line may appear unescaped"""
     out = []
     for b in bs:
-        if 33 <= b <= 126 and chr(b) not in ",:\\":
+        if chr(b) in raw:
+            out.append(chr(b))
+        elif 33 <= b <= 126 and chr(b) not in ",:\\":
             out.append(chr(b))
         elif b == 32:
             out.append(" ")
@@ -107,7 +110,11 @@ def render(l, rng=None, sep=","):
     elif t in "C^":
         f = [d, x, ttl, "", lo]
     elif t == "'":
-        f = [d, _bytes_text(l["rd"]), ttl, "", lo]
+        # the other separator character may stand unescaped in the text ("'a.z:v=spf1 a, mx:300")
+        raw = ""
+        if rng is not None and rng.random() < 0.7:
+            raw = "," if sep == ":" else ":"
+        f = [d, _bytes_text(l["rd"], raw), ttl, "", lo]
     elif t == ":":
         f = [d, str(num[0]), octal(l["rd"]), ttl, "", lo]
     elif t in "HB":
@@ -123,7 +130,12 @@ def render(l, rng=None, sep=","):
         while len(f) > 2 and f[-1] == "":
             f.pop()
     if sep == ":" and any(":" in x for x in f):
-        sep = ","
+        if t == "'" and not any(":" in x for x in f[:1] + f[2:]):
+            f[1] = _bytes_text(l["rd"])            # the colon came from the raw text: escape it again
+        else:
+            sep = ","
+    if sep == "," and t == "'" and "," in f[1]:
+        f[1] = _bytes_text(l["rd"])
     return t + sep.join(f)
 
 
@@ -196,7 +208,7 @@ class Script:
         self.nfile += 1
         text = []
         for l in lines:
-            sep = ":" if (rng is not None and sepmix and rng.random() < 0.3) else ","
+            sep = ":" if (rng is not None and sepmix and rng.random() < (0.5 if l["t"] == "'" else 0.3)) else ","
             text.append(render(l, rng, sep))
         body = "\n".join(text) + "\n"
         self.rows.append({"ev": "file", "id": self.nfile, "text": body, "serial": serial, "lines": [strip(l) for l in lines],
